@@ -36,9 +36,10 @@ def configs(tier, seed=0):
             for pk in (['scalar'] if d == 1 else ['scalar', 'vector']):
                 if fam == 'Lognormal' and d == 1:
                     continue
-                out.append({'key': 'univ/%s/d%d/%s' % (fam, d, pk), 'kind': 'univ', 'family': fam, 'dim': d, 'param': pk})
+                # d = 3 with three symbolic parameter triples: z3 does not always decide the NRA+LOG identity within the cap (stretch: 'unknown' is reported, not hidden)
+                out.append({'key': 'univ/%s/d%d/%s' % (fam, d, pk), 'kind': 'univ', 'family': fam, 'dim': d, 'param': pk, 'stretch': d == 3})
     for d in dims:
-        out.append({'key': 'univ/MHN/d%d' % d, 'kind': 'mhn', 'family': 'MHN', 'dim': d})
+        out.append({'key': 'univ/MHN/d%d' % d, 'kind': 'mhn', 'family': 'MHN', 'dim': d, 'stretch': d == 3})
     # Gaussian input forms
     for form in ['cov', 'prec', 'sqrtcov', 'sqrtprec']:
         for d in dims:
@@ -62,10 +63,8 @@ def configs(tier, seed=0):
                         out.append({'key': 'gauss/%s/d%d/%s%d/%s' % (form, d, pk, idx, 'sparse' if sparse else 'dense'),
                                     'kind': 'gauss', 'family': 'Gaussian', 'form': form, 'dim': d, 'param': pk, 'idx': idx,
                                     'sparse': sparse, 'mean': 'vector', 'box': True})
-    if tier == 'thorough':
-        for form in ['cov', 'prec']:
-            out.append({'key': 'gauss/%s/d2/sym2' % form, 'kind': 'gauss', 'family': 'Gaussian', 'form': form, 'dim': 2,
-                        'param': 'sym2', 'mean': 'vector', 'timeout_ms': 120000})
+    # (a fully symbolic 2x2 covariance through the Cholesky stub was tried here and removed: the log-determinant comes out as a sum of logs of
+    #  square-root variables that the uninterpreted LOG cannot relate to log(det) - spurious models that do not replay; DESIGN.md section 8)
     # callable parameter conditioned later
     for form in ['cov', 'prec', 'sqrtcov', 'sqrtprec']:
         out.append({'key': 'gauss-cond/%s' % form, 'kind': 'gausscond', 'form': form, 'dim': 2})
